@@ -95,7 +95,7 @@ func init() {
 					if lin.R > lin.A || lin.G > lin.A || lin.B > lin.A {
 						c.res.fail(Failure{Class: "C14:" + s.name + ":premultiplied", Desc: "linearising a valid premultiplied pixel gave channel > alpha", Input: inp, Got: fmt.Sprint(lin), Want: "channels <= alpha"})
 					}
-					if c.runner != nil && s.from16 != nil && a > 0 && (ch%41 == 3 || ch == a || ch == a-1 || c.thorough) && ch > 0 {
+					if c.runner != nil && s.from16 != nil && a > 0 && (ch%41 == 3 || (a%5 == 0 && (ch == a || ch == a-1)) || c.thorough) && ch > 0 {
 						// the Flocq model of the channel path (Num/Premul.v) on the table value of this channel code
 						tb := math.Float32bits(s.from16(uint16(ch)))
 						m := c.runner.Ask(fmt.Sprintf("linchan %d %d", tb, a))
